@@ -251,7 +251,10 @@ func (opts GeneratorOptions) genAny(
 	}
 
 	var typeURL string
-	fopts := field.Options()
+	var fopts proto.Message
+	if field != nil {
+		fopts = field.Options()
+	}
 	if proto.HasExtension(fopts, cosmos_proto.E_AcceptsInterface) {
 		ai := proto.GetExtension(fopts, cosmos_proto.E_AcceptsInterface).(string)
 		if impl, found := opts.InterfaceHints[ai]; found {
